@@ -51,7 +51,7 @@ def cfg_dir():
 
 
 def include_flags(prop):
-    return ["-I" + cfg_dir(), "-I" + REPO, "-I" + os.path.join(REPO, "include"),
+    return ["-I" + os.path.join(VERIF, "harness", "machine"), "-I" + cfg_dir(), "-I" + REPO, "-I" + os.path.join(REPO, "include"),
             "-I" + os.path.join(REPO, "src/lib"), "-I" + os.path.join(REPO, "src/lib/include"),
             "-I" + COMMON, "-I" + STUBS, "-I" + os.path.join(VERIF, "harness", prop)]
 
@@ -204,6 +204,31 @@ def build_goto(job, prop, jdir, extra_defs):
     if rc != 0:
         return None, open(os.path.join(jdir, "goto-cc.log")).read()[-3000:]
     cur = gb
+    # replace the bodies of functions defined inside an included real TU (DESIGN R0): remove the body, then link
+    # the harness-supplied definition
+    if job.get("replace"):
+        hdir = os.path.join(VERIF, "harness", prop)
+        nxt = os.path.join(jdir, "h_rm.gb")
+        args = []
+        for fn in job["replace"]:
+            args += ["--remove-function-body", fn]
+        rc, _ = run(["goto-instrument"] + args + [cur, nxt], os.path.join(jdir, "gi_rm.log"), 300, 8)
+        if rc != 0:
+            return None, open(os.path.join(jdir, "gi_rm.log")).read()[-3000:]
+        repl = []
+        for sfile in job.get("replace_with", []):
+            for base in (hdir, COMMON, STUBS, os.path.join(VERIF, "harness", "machine")):
+                if os.path.exists(os.path.join(base, sfile)):
+                    repl.append(os.path.join(base, sfile)); break
+            else:
+                return None, "replacement file not found: " + sfile
+        nxt2 = os.path.join(jdir, "h_rl.gb")
+        cmd = ["goto-cc", "-std=gnu99"] + BASE_DEFS + include_flags(prop) + job.get("defines", []) + extra_defs + \
+            [nxt] + repl + ["--function", job.get("entry", "harness"), "-o", nxt2]
+        rc, _ = run(cmd, os.path.join(jdir, "goto-cc2.log"), 300, 8)
+        if rc != 0:
+            return None, open(os.path.join(jdir, "goto-cc2.log")).read()[-3000:]
+        cur = nxt2
     gi = job.get("instrument", [])
     for i, step in enumerate(gi):
         nxt = os.path.join(jdir, "h%d.gb" % i)
@@ -272,7 +297,7 @@ def repo_functions(gb, jdir):
 
 def native_replay(job, prop, jdir, rdir, vals, extra_defs):
     """Compile the same harness + real TUs natively with ASan/UBSan and replay the choice sequence."""
-    if job.get("native") is False or job.get("instrument"):
+    if job.get("native") is False or job.get("instrument") or job.get("replace"):
         return "skipped", "job not natively replayable (uses goto-instrument body replacement or CBMC-only primitives)"
     h, real, sup = src_paths(job, prop)
     exe = os.path.join(rdir, "replay.bin")
@@ -337,12 +362,24 @@ def run_job(prop, job, tier, kf_defs, keep):
         return r
     out = os.path.join(jdir, "cbmc.json")
     tmo = job.get("timeout", 240 if tier == "quick" else 1800)
-    mem = job.get("mem_gb", 8 if tier == "quick" else 14)
+    mem = job.get("mem_gb", 6 if tier == "quick" else 12)
     rc, dt = run(cbmc_cmd(job, gb, []), out, tmo, mem)
+    # an unwindset entry naming a function that --drop-unused-functions removed is a user-input error in CBMC:
+    # drop that entry and retry (shared unwindset lists across job variants)
+    for _ in range(12):
+        if rc != 1:
+            break
+        m = re.search(r"invalid loop identifier ([A-Za-z0-9_.$]+)", open(out, errors="replace").read())
+        if not m:
+            break
+        bad = m.group(1)
+        job = dict(job)
+        job["unwindset"] = [u for u in job.get("unwindset", []) if u.rsplit(":", 1)[0] != bad]
+        rc, dt = run(cbmc_cmd(job, gb, []), out, tmo, mem)
     r["solver_s"] = round(dt, 2)
     if rc == -9:
         r["status"] = "noverdict"
-        r["detail"] = "timeout after %ds" % tmo
+        r["detail"] = ("timeout after %ds" % tmo) if dt >= tmo - 1 else "solver process killed after %.0fs (SIGKILL: out of memory?)" % dt
         return r
     props, status, msgs = parse_cbmc_json(out)
     if props is None:
@@ -475,7 +512,7 @@ def main():
         for k in mine:
             j2 = dict(j); j2["name"] = j["name"] + "#KFONLY_" + k["id"]
             tasks.append((j2, ["-DKFONLY_" + k["id"]], k))
-    workers = int(os.environ.get("VP_WORKERS", "0") or 0) or min(14, max(1, len(tasks)))
+    workers = int(os.environ.get("VP_WORKERS", "0") or 0) or min(12, max(1, len(tasks)))
     results = []
     with cf.ThreadPoolExecutor(max_workers=workers) as ex:
         futs = {ex.submit(run_job, prop, j, tier, d, keep): (j, k) for (j, d, k) in tasks}
